@@ -157,9 +157,12 @@ func (h *H) connInfos() []*connInfo {
 				byN[e.Conn] = ci
 				list = append(list, ci)
 			}
-		case sim.EvReadPark:
-			if ci := byN[e.Conn]; ci != nil && ci.ReadySeq == 0 && e.N >= 4 {
-				ci.ReadySeq = e.Seq
+		case sim.EvYield:
+			// connect got through handshake and resend on the latest connection
+			if e.Str == "connect.release" && len(list) != 0 {
+				if ci := list[len(list)-1]; ci.ReadySeq == 0 {
+					ci.ReadySeq = e.Seq
+				}
 			}
 		case sim.EvPacket:
 			if ci := byN[e.Conn]; ci != nil {
@@ -212,6 +215,42 @@ func (h *H) checkResend(msgs []*Msg, strictOrder bool) (resent int) {
 			}
 			break
 		}
+		if strictOrder {
+			// Retransmissions (records saved before the dial) come first,
+			// ascending per level, at-least-once before exactly-once;
+			// nothing newly submitted may precede one of them.
+			byID := map[uint16]*Msg{}
+			for _, m := range msgs {
+				byID[m.ID] = m
+			}
+			// Everything accepted before connect locked the sequences is
+			// part of the resend, so a packet may precede a retransmission
+			// only if it is of a lower level or of the same level with an
+			// earlier identifier.
+			seenID := map[uint16]bool{}
+			for i, p := range block {
+				m := byID[p.ID]
+				if m == nil || seenID[p.ID] {
+					continue // unknown, or a repeat (a PUBREL may be repeated by the read routine)
+				}
+				seenID[p.ID] = true
+				isResend := m.SaveSeq < ci.DialSeq
+				if p.Type == refmqtt.PUBREL {
+					isResend = m.RelSaveSeq != 0 && m.RelSaveSeq < ci.DialSeq
+				}
+				if !isResend {
+					continue
+				}
+				for _, q := range block[:i] {
+					switch {
+					case q.ID&0xc000 == 0xc000 && p.ID&0xc000 == 0x8000:
+						h.Failf("conn %d: at-least-once retransmission %s comes after exactly-once %s", ci.N, p, q)
+					case q.ID&0xc000 == p.ID&0xc000 && (p.ID-q.ID)&0x3fff > 0x2000:
+						h.Failf("conn %d: retransmission %s comes after %s, which was accepted later", ci.N, p, q)
+					}
+				}
+			}
+		}
 		bi := 0
 		for _, m := range want {
 			stageRel := m.RelSaveSeq != 0 && m.RelSaveSeq < ci.DialSeq
@@ -219,9 +258,6 @@ func (h *H) checkResend(msgs []*Msg, strictOrder bool) (resent int) {
 			for ; bi < len(block); bi++ {
 				p := block[bi]
 				if p.ID != m.ID {
-					if strictOrder {
-						break
-					}
 					continue
 				}
 				if stageRel {
